@@ -11,7 +11,8 @@ def run(R):
     try:
         n = 240 if quick else 4000
         while len(jobs) < n:
-            ops = rng.choice([("modify",), ("modify", "create", "delete"), ("modify", "rename", "chmod", "create", "delete"), ("create",), ("delete",)])
+            ops = rng.choice([("modify",), ("modify", "create", "delete"), ("modify", "rename", "chmod", "create", "delete"), ("create",), ("delete",),
+                              ("modify", "create-empty", "delete-empty", "create", "delete"), ("copy-edit", "modify"), ("copy-edit",)])
             A, B, ch, prod, ctx, text = drv.make_case(rng, P, ops=ops)
             if drv.has_d2(text):
                 R.known_hits["locator.insert-at-zero-nonempty"] += 0  # excluded from generation (known finding D2)
